@@ -83,12 +83,16 @@ theorem nub_read7Aux (f shl r : Nat) (hs : shl + 7 * f ≤ 35) : NoUB (read7Aux 
     have hshl : shl < 32 := by omega
     unfold read7Aux
     refine NoUB.bind (NoUB.readN _) (fun b => ?_)
-    simp only [hshl, if_true]
-    split
-    · split
-      · exact NoUB.fail _
-      · exact ih _ _ (by omega)
-    · exact NoUB.pure _
+    dsimp only
+    by_cases hg : shl = 28 ∧ leNat b % 128 ≥ 16
+    · rw [if_pos hg]; exact NoUB.fail _
+    · rw [if_neg hg, if_pos hshl]
+      by_cases h128 : leNat b ≥ 128
+      · rw [if_pos h128]
+        by_cases hf : f = 0
+        · rw [if_pos hf]; exact NoUB.fail _
+        · rw [if_neg hf]; exact ih _ _ (by omega)
+      · rw [if_neg h128]; exact NoUB.pure _
 
 theorem nub_read7 : NoUB read7 := nub_read7Aux 5 0 0 (by omega)
 
@@ -206,6 +210,8 @@ theorem nub_readProp (c : Cfg) : NoUB (readProp c) := by
 theorem nub_readCS (c : Cfg) : NoUB (readCS c) := by
   unfold readCS; simp only [P.bind_def]
   refine NoUB.bind (nub_secExpect _) (fun _ => NoUB.bind (nub_readVA c) (fun values => NoUB.bind (nub_readInt32 c) (fun v => ?_)))
+  split
+  · exact NoUB.fail _
   split
   · rename_i hv
     split
